@@ -35,3 +35,6 @@ def run(ctx):
     # the once-only marks and the stages belong to one queue: nothing mutable is shared through the class body
     from ..engines import statepickle as R
     R.r5b_no_class_level_state(ctx, list(ctx.P.subclasses(ctx.P.need_class("CSSQueue"), strict=False)))
+    from ..engines import queueproto as QP
+    QP.q13_staging_is_a_queue(ctx)
+    ctx.floor("Q13", 1)
